@@ -24,3 +24,14 @@ OBLIGATIONS += [
     _n("table_name_alpha5", 150, "names of <= 5 characters over {a, space, apostrophe, [, ], *, ?, :, /, backslash, LF, TAB, e-acute, .}", "thorough"),
     _n("named_range_name", 100, "printable-ASCII names of <= 3 characters: accepted => word characters, not cell-reference shaped; certainly valid => accepted"),
 ]
+
+
+# A-level: the real Row/Cell classes (string-valued repeat accessors, Cell.clone) on the lxml model
+for _fn in ['arow_set', 'arow_delete']:
+    _secs = {'arow_set': 255, 'arow_insert': 235, 'arow_delete': 35, 'arow_get_clone': 40}[_fn]
+    OBLIGATIONS.append(Obl(name=_fn, module="h_arow", func=_fn, shadow=True, timeout=_secs * 4, replay="r_h_arow:" + _fn, weight=_secs,
+                           tier="quick" if _secs < 100 else "thorough",
+                           bounds="real Row of two cell-runs with repeats in 1..3, positions <= 7, inserted repeat <= 3, probe <= 10",
+                           encodes=["src/odfdo/row.py:Row (all methods used, incl. repeated accessors)", "src/odfdo/cell.py:Cell.__init__,repeated,_set_repeated,clone,get_value,set_value",
+                                    "src/odfdo/element.py:Element.insert,delete,index,clone,_get_element_idx2,elements_repeated_sequence", "src/odfdo/element_cached.py (all)"],
+                           stubs=["/verif/shadow/lxml (symdom)"]))
